@@ -9,7 +9,32 @@ K_IPTABLE = {"unit": "iptable", "inject": "elvis-core/src/ip_table.rs", "crate":
 
 K_MESSAGE = {"unit": "message", "inject": "elvis-core/src/message/slice_range.rs", "crate": "elvis-core"}
 
+K_IPV4HDR = {"unit": "ipv4hdr", "inject": "elvis-core/src/protocols/ipv4/ipv4_parsing.rs", "crate": "elvis-core"}
+K_UDPHDR = {"unit": "udphdr", "inject": "elvis-core/src/protocols/udp/udp_parsing.rs", "crate": "elvis-core"}
+K_TCPHDR = {"unit": "tcphdr", "inject": "elvis-core/src/protocols/tcp/tcp_parsing.rs", "crate": "elvis-core"}
+K_ARP = {"unit": "arp", "inject": "elvis-core/src/protocols/arp/arp_parsing.rs", "crate": "elvis-core"}
+
 PROPS = {
+    "C14": {
+        "units": [],
+        "kani": [K_IPV4HDR, K_UDPHDR, K_TCPHDR, K_ARP],
+        "level": "proof",
+        "technique": "Kani full-domain harnesses on the real decoders (panic-freedom = every unwrap/index/arith check CBMC generates), Verus on the extracted DNS/DHCP decoders",
+        "level_text": "Decoder clause: for every byte string (all lengths 0..=N+4 of symbolic bytes, symbolic packet_len) the IPv4/UDP/TCP/ARP decoders return a value or an error - CBMC proves every panic site (unwrap, index, arithmetic overflow) unreachable; truncations are always rejected; accepted inputs re-encode without panic.",
+        "level_note": "Trusted: Kani/CBMC. NOT decided: the NDL text parser (nom/&str: outside Verus, CBMC does not scale), and 'a frame that fails to decode is dropped at that layer' (demux glue over DashMap/Arc<dyn Protocol>/tokio).",
+        "assumptions": ["decoders read at most the fixed header from the iterator in the default feature set (accumulate_remainder is a no-op)"],
+        "explanation": "decoder panic-freedom",
+    },
+    "C08": {
+        "units": [],
+        "kani": [K_IPV4HDR, K_UDPHDR, K_TCPHDR, K_ARP],
+        "level": "proof",
+        "technique": "Kani full-domain harnesses (loop-free => complete) on the real codec functions: decode/re-encode, encode/decode, RFC wire layout",
+        "level_text": "IPv4, UDP, TCP and ARP codecs: for every fixed-size header byte string the decoder accepts, re-encoding reproduces the bytes; for every value the public builders can produce, decoding the encoding returns it; the encoder output equals the RFC 791/768/9293/826 layout written out byte by byte in the harness. CBMC explores all inputs (no bound: the code is loop-free in the default feature set; the 2-iteration next_n loop is fully unwound with unwinding assertions).",
+        "level_note": "Trusted: Kani/CBMC; the harness-side RFC layouts in units/*/kani.rs are the specification (an 'independent implementation' such as etherparse is not linked). Default feature set (checksum field transmitted as zero); the compute_checksum configuration is C18. DNS/DHCP: see evidence (variable-length codecs).",
+        "assumptions": ["'representable header value' = what the public builders/constructors can produce with IHL = data offset = 5"],
+        "explanation": "codec round trips and wire formats",
+    },
     "C10": {
         "units": ["frag", "message"],
         "level": "proof",
